@@ -101,9 +101,9 @@ class Interp:
                 r = self._send(s, c["frames"][0])
             except Exception as e:
                 return [(f"{tag}|decoder-error|{type(e).__name__}", f"step {len(self.ops) - 1} {op}: {type(e).__name__}: {e}")]
-            if r is not None:
+            if r is not None and s < OBSERVED:
                 return [(f"{tag}|redelivered-by-first-frame-duplicate", f"step {len(self.ops) - 1} {op}: a stray duplicate of a first frame produced a message "
-                         f"(payload {fp.recon(r) if r.id == fp.fallback_id(STREAMS[s][0]) else r.id!r:.60}) that was never sent")]
+                         f"({r.id}) that was never sent")]
             return []
         if op["op"] == "drop":
             self.cur[s]["dropped"].add(op["index"])
